@@ -281,6 +281,7 @@ def ts_set_quirks_mode(m, a, c):
 
 @model("<Sink as TreeSink>::same_node")
 def ts_same_node(m, a, c):
+    state(m)["calls"].append(("same_node", H(a[1]), H(a[2])))
     return H(a[1]) == H(a[2])
 
 
@@ -297,6 +298,7 @@ def need_element(st, h, what):
 def ts_elem_name(m, a, c):
     st = state(m)
     h = H(a[1])
+    st["calls"].append(("elem_name", h))
     if not need_element(st, h, "elem_name"):
         raise Panic("TreeSink contract: elem_name called on %s, which is not an element created by this sink" % describe(st, h))
     return MD.ElemNameM(st["nodes"][h]["name"])
@@ -312,6 +314,7 @@ def en_ns(m, a, c):
 def ts_get_template_contents(m, a, c):
     st = state(m)
     h = H(a[1])
+    st["calls"].append(("get_template_contents", h))
     if not need_element(st, h, "get_template_contents") or st["nodes"][h]["template"] is None:
         bad(st, "get_template_contents called on %s, which is not a template element" % describe(st, h))
         raise Panic("TreeSink contract: get_template_contents on a non-template node")
@@ -396,6 +399,7 @@ def ts_associate_with_form(m, a, c):
 def ts_is_mathml_ip(m, a, c):
     st = state(m)
     h = H(a[1])
+    st["calls"].append(("is_mathml_annotation_xml_integration_point", h))
     if not need_element(st, h, "is_mathml_annotation_xml_integration_point"):
         return False
     return bool(st["nodes"][h]["flags"].get("mathml_annotation_xml_integration_point"))
